@@ -440,21 +440,21 @@ def run_table_sort(spec):
 
 
 SUBS = [
-    Sub('cmp_laws', lambda tier: _triple, run_cmp_laws, quick=4000, thorough=40000,
+    Sub('cmp_laws', lambda tier: _triple, run_cmp_laws, quick=4000, thorough=20000,
         rule='triples (x,y,z) from the mixed universe (None, bools, ints, floats, NaN objects 0/1, +-inf, strings, date/datetime/datetime64, numpy scalars, '
              'lists/tuples/dicts to depth 2); all 9 cmp values checked for range, antisymmetry, transitivity, numeric agreement, NaN rank. '
              'non-trivial = at least two type classes or a NaN; distinct = distinct spec',
         floor=0.3),
     EnumSub('cmp_cube', enum_cube, run_cmp_laws, thorough_only=True, chunks=len(POOL),
             rule='every ordered triple of a fixed %i-element pool (all %i); same oracle as cmp_laws' % (len(POOL), len(POOL) ** 3)),
-    Sub('sort_list', lambda tier: _sort_input, run_sort_list, quick=4000, thorough=30000,
+    Sub('sort_list', lambda tier: _sort_input, run_sort_list, quick=4000, thorough=15000,
         rule='lists (<=10) of None/ints/finite floats/NaN/strings/datetimes and of equal-length (1-3) tuples of them; oracle: permutation, '
              'non-decreasing under cmp, input untouched. non-trivial = length >= 3 and (>= 2 type classes or a NaN)',
         floor=0.2, class_floors={'nan_among_one_type': 0.03}),
     Sub('sort_list_large', lambda tier: _sort_input_large, run_sort_list, quick=150, thorough=1000,
         rule='lists of 40-256 scalars (or 2-tuples) drawn from pools of 3-6 values incl. NaN objects, None, strings, datetimes, in random / grouped (looks sorted) / reversed / one-off order: size-dependent paths of sort(); same oracle as sort_list',
         floor=0.2),
-    Sub('table_sort', lambda tier: _table_case(), run_table_sort, quick=1500, thorough=12000,
+    Sub('table_sort', lambda tier: _table_case(), run_table_sort, quick=1500, thorough=6000,
         rule='tables of 0-8 rows x 1-4 columns with a hidden position column; keys as *names, as one list, as a function, as value orders, or none; '
              'oracle: permutation of rows, keys non-decreasing under cmp, ties keep original order, idempotent, unlisted values last, operand untouched. '
              'non-trivial = >= 3 rows and (tied keys or NaN key)',
